@@ -3,6 +3,7 @@
   (`_dict_2_entry` → `_remove_empty` → `_entry_2_dict`).
 -/
 import TmVerif.Codec.Ldap
+import TmVerif.Codec.JsonProof
 
 namespace TmVerif.Codec
 open TmVerif
@@ -490,7 +491,32 @@ theorem dict2entry_keys_present (sch : Schema) (opt : Option (Str × Nat)) (obj 
             · exact ⟨(lf, of, ft), by simp, rfl, by simp [hl]⟩
             · exact htail p hp
 
-/-! ### decidable checkers for the well-formedness predicates (sound, conservative on `dict` fields) -/
+/-! ### the `dict` field: `DictOK` holds for every canonical dictionary (proved JSON round trip) -/
+
+theorem sortTop_id (kvs : List (Str × JVal)) (prevs : List Str) (hc : canonM prevs kvs = true) :
+    sortTop kvs = kvs := by
+  induction kvs generalizing prevs with
+  | nil => rfl
+  | cons p r ih =>
+    obtain ⟨k, v⟩ := p
+    have hc' := hc
+    simp only [canonM, Bool.and_eq_true] at hc
+    simp only [sortTop, ih _ hc.2]
+    cases r with
+    | nil => rfl
+    | cons q qs =>
+      obtain ⟨k', v'⟩ := q
+      exact insertKV_head k v k' v' qs (canonM_next prevs k k' v v' qs hc')
+
+
+/-- a dictionary without floats whose keys are strictly increasing at every depth satisfies `DictOK`
+    (so for such values the round trip of a `dict`-typed field needs no hypothesis) -/
+theorem dictOK_of_canon (kvs : KVs) (hc : canonB (.obj kvs) = true) : DictOK kvs := by
+  simp only [canonB] at hc
+  simp only [DictOK, sortTop_id kvs [] hc]
+  exact dumpVal_roundtrip (.obj kvs) (by simpa [canonB] using hc)
+
+/-! ### decidable checkers for the well-formedness predicates (sound; `dict` fields: canonical, no floats) -/
 
 def valOKb : FT → JVal → Bool
   | _, .null => true
@@ -500,10 +526,12 @@ def valOKb : FT → JVal → Bool
   | .bool, .bool _ => true
   | .listStr, .arr l => l.all isStrOrNull
   | .listInt, .arr l => l.all isIntOrNull
+  | .dict, .obj kvs => canonB (.obj kvs)
   | _, _ => false
 
 theorem valOKb_sound (ft : FT) (v : JVal) (h : valOKb ft v = true) : valOK ft v := by
   cases ft <;> cases v <;> simp_all [valOKb, valOK]
+  exact dictOK_of_canon _ h
 
 def objWFb (sch : Schema) (obj : KVs) : Bool :=
   sch.all (fun r => match lookup r.2.1 obj with
